@@ -2,11 +2,14 @@
 // real library under the FIBER backend, explored over every interleaving (DFS) or by seeded random walks.
 //
 // A plan is a list of tokens separated by blanks:
-//   O<i>:<kind>:<outcome>:<when>   awaited object i.  kind: U unique contract, S shared contract, RU<x> Run(x, f),
+//   O<i>:<kind>:<outcome>:<when>   awaited object i.  kind: U unique contract, S shared contract, UO<x> / SO<x> the same made
+//                                  by MakeContractOn(x) / MakeSharedContractOn(x) (the core is bound to executor x), RU<x> Run(x, f),
 //                                  RS<x> RunShared(x, f), LT<x> Schedule(x, f) (a lazy Task).  outcome: v<n> value, e<n>
 //                                  exception, s the promise is dropped (StopError).  when: a fulfilled by main before any
 //                                  coroutine starts, d by its own fiber P<i>, l by main after the coroutines were started
 //   X<i>:<kind>                    executor i >= 1.  q: queue drained by main at the end, s: stopped (Drop inside Submit),
+//                                  h: a queue that main hard-stops instead of draining (queued jobs are dropped by main,
+//                                  later Submits drop at once),
 //                                  p: FairThreadPool(1) behind the same instrumentation, z: a stopped FairThreadPool
 //   D                              main drains the queue executors once right after it started the coroutines (a fiber that
 //                                  starts a coroutine always does so)
@@ -184,6 +187,13 @@ Plan Parse(const std::string& text) {
       } else if (k == "S") {
         o.kind = OK::S;
         o.shared = true;
+      } else if (k.rfind("UO", 0) == 0) {
+        o.kind = OK::U;
+        o.x = std::atoi(k.c_str() + 2);
+      } else if (k.rfind("SO", 0) == 0) {
+        o.kind = OK::S;
+        o.shared = true;
+        o.x = std::atoi(k.c_str() + 2);
       } else if (k.rfind("RU", 0) == 0) {
         o.kind = OK::RU;
         o.x = std::atoi(k.c_str() + 2);
@@ -284,10 +294,12 @@ class XExec final : public yaclib::IExecutor {
   Type Tag() const noexcept final {
     return Type::Custom;
   }
+  bool stopped = false;  // kind h after HardStop
   bool Alive() const noexcept final {
-    return kind != 's' && kind != 'z';
+    return kind != 's' && kind != 'z' && !stopped;
   }
   void Submit(yaclib::Job& job) noexcept final;
+  void HardStop();
   bool DrainOne() {
     if (q.empty()) {
       return false;
@@ -321,6 +333,7 @@ struct CoShadow {
   int local_dtor = 0;
   int frame_dtor = 0;
   int submits_since_aw = 0;
+  int submit_exec = 0;  // the executor of the last Submit
   std::uint64_t fiber_before = 0;
   yaclib::IExecutor* exec_before = nullptr;
   bool consumed = false;  // its future was moved into somebody's co_await
@@ -336,6 +349,7 @@ struct Ctx {
   std::vector<yaclib::Promise<Val>> prom;
   std::vector<yaclib::SharedPromise<Val>> sprom;
   std::vector<char> happened;
+  std::vector<char> expect_stop;  // the job that was to fulfil this object was dropped by its executor
   std::vector<std::uint64_t> completer;
   std::vector<CoShadow> co;
   std::vector<Frame> frames;
@@ -350,6 +364,7 @@ struct Ctx {
     prom.resize(n);
     sprom.resize(n);
     happened.assign(n, 0);
+    expect_stop.assign(n, 0);
     completer.assign(n, 0);
     co.resize(p.cs.size());
   }
@@ -467,6 +482,9 @@ struct Ctx {
       if (p.os[o].kind == OK::LT && (p.xs[p.os[o].x].kind == 's' || p.xs[p.os[o].x].kind == 'z')) {
         want = Seen{'s', 0};  // the task's step was dropped by its stopped executor
       }
+      if (expect_stop[o]) {
+        want = Seen{'s', 0};  // the job behind Run / Schedule was dropped by HardStop
+      }
       if (happened[o] && !(seen == want)) {
         vrt::Fail(who + " received " + seen.Str() + " but object " + std::to_string(o) + " holds " + want.Str());
       }
@@ -487,6 +505,10 @@ struct Ctx {
       XExec& x = *xs[st.x];
       if (&e != &x) {
         vrt::Fail(who + " continues with CurrentExecutor " + std::to_string(ExecId(e)) + ", not the executor named");
+      }
+      if (sh.submits_since_aw != 1 || sh.submit_exec != st.x) {
+        vrt::Fail(who + " was not submitted exactly once to the executor named (" + std::to_string(sh.submits_since_aw) +
+                  " submissions, last to executor " + std::to_string(sh.submit_exec) + ")");
       }
       if (!x.Calling(c)) {
         vrt::Fail(who + " did not resume inside a Call of the executor named");
@@ -574,10 +596,11 @@ void XExec::Submit(yaclib::Job& job) noexcept {
   int c = it == gCtx->jobs.end() ? -1 : it->second;
   vrt::Event("submit " + std::to_string(id) + " " + std::to_string(c));
   if (c >= 0) {
+    gCtx->co[c].submit_exec = id;
     if (++gCtx->co[c].submits_since_aw > 1) {
       vrt::Fail("coroutine " + std::to_string(c) + " submitted twice for one co_await");
     }
-  } else if (kind == 's' || kind == 'z') {
+  } else if (kind == 's' || kind == 'z' || (kind == 'h' && stopped)) {
     // the head of a lazy task dropped by its executor: the task completes with StopError now
     for (std::size_t o = 0; o < gCtx->p.os.size(); ++o) {
       if (gCtx->p.os[o].kind == OK::LT && gCtx->p.os[o].x == id) {
@@ -589,12 +612,29 @@ void XExec::Submit(yaclib::Job& job) noexcept {
   w->x = this;
   w->inner = &job;
   w->c = c;
-  if (kind == 'q') {
+  if (kind == 'q' || (kind == 'h' && !stopped)) {
     q.push_back(w);
-  } else if (kind == 's') {
+  } else if (kind == 's' || kind == 'h') {
     w->Drop();
   } else {
     tp->Submit(*w);
+  }
+}
+
+void XExec::HardStop() {
+  stopped = true;
+  // what Run / RunShared / Schedule queued here and has not run yet is dropped: those objects complete with StopError
+  for (std::size_t o = 0; o < gCtx->p.os.size(); ++o) {
+    const OSpec& s = gCtx->p.os[o];
+    if ((s.kind == OK::RU || s.kind == OK::RS || s.kind == OK::LT) && s.x == id && !gCtx->happened[o]) {
+      gCtx->expect_stop[o] = 1;
+      gCtx->Happened(static_cast<int>(o));
+    }
+  }
+  while (!q.empty()) {
+    auto* j = q.front();
+    q.pop_front();
+    j->Drop();
   }
 }
 
@@ -837,16 +877,30 @@ void RunPlan(const Plan& plan) {
     const OSpec& s = plan.os[o];
     switch (s.kind) {
       case OK::U: {
-        auto [f, p] = yaclib::MakeContract<Val>();
-        cx.NameWord(o, f.GetCore().Get());
-        cx.fut[o] = std::move(f);
-        cx.prom[o] = std::move(p);
+        if (s.x != 0) {
+          auto [f, p] = yaclib::MakeContractOn<Val>(cx.Exec(s.x));
+          cx.NameWord(o, f.GetCore().Get());
+          cx.fut[o] = std::move(f).On(nullptr);
+          cx.prom[o] = std::move(p);
+        } else {
+          auto [f, p] = yaclib::MakeContract<Val>();
+          cx.NameWord(o, f.GetCore().Get());
+          cx.fut[o] = std::move(f);
+          cx.prom[o] = std::move(p);
+        }
       } break;
       case OK::S: {
-        auto [f, p] = yaclib::MakeSharedContract<Val>();
-        cx.NameWord(o, f.GetCore().Get());
-        cx.sfut[o] = std::move(f);
-        cx.sprom[o] = std::move(p);
+        if (s.x != 0) {
+          auto [f, p] = yaclib::MakeSharedContractOn<Val>(cx.Exec(s.x));
+          cx.NameWord(o, f.GetCore().Get());
+          cx.sfut[o] = std::move(f).On(nullptr);
+          cx.sprom[o] = std::move(p);
+        } else {
+          auto [f, p] = yaclib::MakeSharedContract<Val>();
+          cx.NameWord(o, f.GetCore().Get());
+          cx.sfut[o] = std::move(f);
+          cx.sprom[o] = std::move(p);
+        }
       } break;
       case OK::RU: {
         Ctx* c = &cx;
@@ -909,10 +963,17 @@ void RunPlan(const Plan& plan) {
       start(static_cast<int>(c));
     }
   }
-  auto drain = [&cx] {
+  auto drain = [&cx](bool main_fiber = false) {
     for (bool again = true; again;) {
       again = false;
       for (std::size_t i = 1; i < cx.xs.size(); ++i) {
+        if (cx.xs[i]->kind == 'h') {
+          if (main_fiber && !cx.xs[i]->stopped) {
+            cx.xs[i]->HardStop();  // a foreign fiber stops the executor: its queued jobs are dropped here
+            again = true;
+          }
+          continue;
+        }
         while (cx.xs[i]->DrainOne()) {
           again = true;
         }
@@ -934,7 +995,7 @@ void RunPlan(const Plan& plan) {
     }
   }
   if (plan.drain_early) {
-    drain();
+    drain(true);
   }
   for (int o = 0; o < plan.next; ++o) {
     if ((plan.os[o].kind == OK::U || plan.os[o].kind == OK::S) && plan.os[o].when == 'l') {
@@ -945,14 +1006,14 @@ void RunPlan(const Plan& plan) {
     t.join();
   }
   // drain: queues by main, pools by waiting for them
-  drain();
+  drain(true);
   for (std::size_t i = 1; i < cx.xs.size(); ++i) {
     if (cx.pools[i]) {
       cx.pools[i]->SoftStop();
       cx.pools[i]->Wait();
     }
   }
-  drain();  // what the pool's jobs may have submitted to the queues
+  drain(true);  // what the pool's jobs may have submitted to the queues
   // harvest: every started coroutine must be complete by now, with the Result the property says
   for (std::size_t c = 0; c < plan.cs.size(); ++c) {
     auto& sh = cx.co[c];
